@@ -45,7 +45,8 @@ PROPERTIES = {
                 "heap discipline of std:: and Boost objects used by the handler is not modelled: that part rests on the "
                 "ASan/UBSan verdict of the correspondence runs"],
             "assumptions": ["argc >= 1 (a program name is always present)"]},
-    "C07": {"lean_module": "CelmaVerif.Props.C07", "kind": "functional", "trusted": TRUST,
+    "C07": {"lean_module": "CelmaVerif.Props.C07", "obligation_modules": ["CelmaVerif.Props.C07b"],
+            "kind": "functional", "trusted": TRUST,
             "assumptions": ["claimed for the modelled fragment only",
                             "file lines are delivered by std::getline as written (no NUL / newline inside a word)"]},
     "C08": {"lean_module": "CelmaVerif.Props.C08", "kind": "functional", "trusted": TRUST,
